@@ -256,6 +256,8 @@ def ev_mp(e, env, mp):
             return min(a[0], a[1])
         if f == 'arctan':
             return mp.atan(a[0])
+        if f == 'sign':
+            return mp.mpf((a[0] > 0) - (a[0] < 0))
         return getattr(mp, f)(*a)
     raise ValueError(k)
 
@@ -327,7 +329,8 @@ def d(e, x):
     raise ValueError(k)
 
 
-F64['_sign'] = lambda v: (v > 0) - (v < 0)
+F64['_sign'] = lambda v: float(v > 0) - float(v < 0)
+F64['sign'] = lambda v: float(v > 0) - float(v < 0)
 F64['_gt'] = lambda a, b: 1.0 if a > b else 0.0
 
 
